@@ -154,6 +154,23 @@ func canonTokens(p rtcp.Packet) string {
 	return packetTokens(q)
 }
 
+// xrFreshHeaders: the same report as a caller builds it from scratch (block headers zero; an opaque block keeps its type
+// and type-specific octet, which are its content)
+func xrFreshHeaders(x *rtcp.ExtendedReport) *rtcp.ExtendedReport {
+	c := &rtcp.ExtendedReport{SenderSSRC: x.SenderSSRC}
+	for _, b := range x.Reports {
+		hdr, omits, vals, elems := xrParts(b)
+		kind := xrKindOf(b)
+		if kind != 0 {
+			hdr = rtcp.XRHeader{}
+		} else {
+			hdr.BlockLength = 0
+		}
+		c.Reports = append(c.Reports, xrBuild(kind, hdr, omits, vals, elems))
+	}
+	return c
+}
+
 // xrCanonHeaders: the block headers a decoder must return for x, computed from RFC 3611 (not by calling Marshal):
 // registered block type (an opaque block keeps its own), type-specific octet from the fields, length in words - 1
 func xrCanonHeaders(x *rtcp.ExtendedReport) *rtcp.ExtendedReport {
@@ -807,6 +824,14 @@ func rembOracle(base, kind, args, res string) string {
 		exp := uint32(b[17] >> 2)
 		mant := uint32(b[17]&3)<<16 | uint32(b[18])<<8 | uint32(b[19])
 		want := float32(math.Ldexp(float64(mant), int(exp)))
+		if int(b[16]) != len(v.SSRCs) {
+			return "count octet differs from the number of SSRC entries"
+		}
+		for i, s := range v.SSRCs {
+			if 24+4*i <= len(b) && s != binary.BigEndian.Uint32(b[20+4*i:]) {
+				return fmt.Sprintf("SSRC entry %d differs from the wire", i)
+			}
+		}
 		if v.Bitrate != want {
 			why := fmt.Sprintf("decoded bitrate %g, wire says %d x 2^%d", v.Bitrate, mant, exp)
 			if mant == 0 {
